@@ -444,9 +444,21 @@ func g2lEmitUnit(u *g2lUnit) string {
 			if variants, ok := u.sumTypes[s]; ok {
 				fmt.Fprintf(b, "/-- `type %s interface`: the sum of the struct types that implement it -/\ninductive %s where\n", s, s)
 				for _, v := range variants {
-					fmt.Fprintf(b, "  | %s (x : %s)\n", v, v)
+					pt := v
+					if _, ok := u.heapTypes[v]; ok {
+						pt = "Int"
+					}
+					if _, ok := u.interior[v]; ok {
+						pt = "Int"
+					}
+					fmt.Fprintf(b, "  | %s (x : %s)\n", v, pt)
 				}
-				fmt.Fprintf(b, "instance : Inhabited %s := ⟨%s.%s default⟩\n", s, s, variants[0])
+				if u.sumNil[s] {
+					fmt.Fprintf(b, "  | nil\n  deriving DecidableEq, Repr\n")
+					fmt.Fprintf(b, "instance : Inhabited %s := ⟨%s.nil⟩\n", s, s)
+				} else {
+					fmt.Fprintf(b, "instance : Inhabited %s := ⟨%s.%s default⟩\n", s, s, variants[0])
+				}
 				flds := []string{}
 				for _, fld := range u.embedGet {
 					flds = append(flds, fld)
@@ -471,6 +483,40 @@ func g2lEmitUnit(u *g2lUnit) string {
 			}
 			b.WriteString(u.structDecl(p, s, dummy) + "\n")
 		}()
+	}
+	if len(u.heapTypes) > 0 {
+		// the heap: one list of objects per heap type; helpers that read / write the struct embedded in every variant of a sum type
+		hts := sortedKeys(u.heapTypes)
+		fmt.Fprintf(b, "/-- the heap: the objects allocated so far, per type (a pointer is the 1-based position; 0 is nil) -/\nstructure Heap where\n")
+		inits := []string{}
+		for _, t := range hts {
+			fmt.Fprintf(b, "  %s : List %s\n", u.heapTypes[t], t)
+			inits = append(inits, u.heapTypes[t]+" := []")
+		}
+		fmt.Fprintf(b, "instance : Inhabited Heap := ⟨{ %s }⟩\n\n", strings.Join(inits, ", "))
+		for _, owned := range sortedKeys(u.ownerPtr) {
+			sum := u.ownerPtr[owned]
+			get := &strings.Builder{}
+			set := &strings.Builder{}
+			fmt.Fprintf(get, "/-- the `%s` embedded in the node a `%s` value points to -/\ndef %s_get%s (e : %s) (world : Heap) : M %s :=\n  match e with\n", owned, sum, sum, owned, sum, owned)
+			fmt.Fprintf(set, "/-- store the `%s` embedded in the node a `%s` value points to -/\ndef %s_set%s (e : %s) (c : %s) (world : Heap) : M Heap :=\n  match e with\n", owned, sum, sum, owned, sum, owned)
+			for _, v := range u.sumTypes[sum] {
+				if fld, ok := u.heapTypes[v]; ok {
+					fmt.Fprintf(get, "  | .%s p => do let t ← heapGet world.%s p; pure t.%s\n", v, fld, owned)
+					fmt.Fprintf(set, "  | .%s p => do let t ← heapGet world.%s p; let l ← heapSet world.%s p { t with %s := c }; pure { world with %s := l }\n", v, fld, fld, owned, fld)
+				} else if spec, ok := u.interior[v]; ok {
+					parts := strings.SplitN(spec, ".", 2)
+					fld := u.heapTypes[parts[0]]
+					fmt.Fprintf(get, "  | .%s p => do let t ← heapGet world.%s p; pure t.%s.%s\n", v, fld, parts[1], owned)
+					fmt.Fprintf(set, "  | .%s p => do let t ← heapGet world.%s p; let l ← heapSet world.%s p { t with %s := { t.%s with %s := c } }; pure { world with %s := l }\n", v, fld, fld, parts[1], parts[1], owned, fld)
+				}
+			}
+			if u.sumNil[sum] {
+				fmt.Fprintf(get, "  | .nil => throw Err.panic\n")
+				fmt.Fprintf(set, "  | .nil => throw Err.panic\n")
+			}
+			b.WriteString(get.String() + "\n" + set.String() + "\n")
+		}
 	}
 	b.WriteString(u.preamble)
 	for _, name := range u.order(p) {
